@@ -52,6 +52,7 @@ def matrix_cases(draw, tier):
     cons = draw(st.sampled_from(['none', 'none', 'bool', 'nan', 'bool+rcons', 'rcons-only']))
     cmask = [draw(st.booleans()) for _ in range(n)]
     rmask = draw(st.permutations(cmask))
+    again = [list(draw(st.permutations(cmask))) for _ in range(draw(st.sampled_from([0, 0, 1, 2])))]    # further solves on the same Matrix object: same number of constraints elsewhere
     cvals = [draw(st.sampled_from(V)) for _ in range(n)]
     lhs0 = [draw(st.sampled_from(V)) for _ in range(n)] if draw(st.booleans()) else None
     tol = draw(st.sampled_from([[0, 0], [0, 0], [1e-12, 0], [0, 1e-10], [1e-8, 0], [1e-2, 0], [0, 1e-3], [1e-10, 1e-6]]))
@@ -59,7 +60,7 @@ def matrix_cases(draw, tier):
     solver = draw(st.sampled_from(['direct', 'arnoldi', 'arnoldi', 'default'] + (['cg', 'gmres', 'bicg', 'bicgstab', 'lgmres', 'cgs'] if be == 'scipy' else [])))
     precon = draw(st.sampled_from([None, None, 'direct', 'diag'] + (['splu', 'spilu', 'spilu0'] if be == 'scipy' else [])))
     truncate = draw(st.sampled_from([None, None, 2, 5]))
-    return dict(n=n, kind=kind, entries=entries, mask=mask, nrhs=nrhs, rhs=rhs, rhskind=rhskind, cons=cons, cmask=cmask, rmask=list(rmask), cvals=cvals, lhs0=lhs0,
+    return dict(n=n, kind=kind, entries=entries, mask=mask, nrhs=nrhs, rhs=rhs, rhskind=rhskind, cons=cons, cmask=cmask, rmask=list(rmask), cvals=cvals, lhs0=lhs0, again=again,
                 atol=tol[0], rtol=tol[1], backend=be, solver=solver, precon=precon, truncate=truncate, scale=draw(st.sampled_from([1e-6, 1e-9, 1e-12])))
 
 
@@ -91,6 +92,16 @@ def make_matrix(case):
 
 
 def check_matrix(case, rec):
+    # the first solve, then (for constrained cases) further solves on the same Matrix object with the constraints moved: cached submatrices / preconditioners must not leak
+    holder = {}
+    _check_matrix_one(case, rec, holder)
+    if case['cons'] in ('bool', 'nan', 'bool+rcons') and 'M' in holder:
+        for k, cm in enumerate(case.get('again', [])):
+            if cm != case['cmask']: rec.label('resolve-with-moved-constraints')
+            _check_matrix_one(dict(case, cmask=cm), rec, holder)
+
+
+def _check_matrix_one(case, rec, holder):
     from nutils import matrix
     be = case['backend'] if case['backend'] in get_backends() else 'numpy'
     n = case['n']
@@ -143,8 +154,10 @@ def check_matrix(case, rec):
     free_rows = ~rmask if 'rconstrain' in kwargs else free_cols
     with matrix.backend(be), warnings.catch_warnings():
         warnings.simplefilter('ignore')
-        rows, cols = numpy.nonzero(A)
-        M = matrix.assemble_coo(A[rows, cols], rows, n, cols, n)
+        if 'M' not in holder:
+            rows, cols = numpy.nonzero(A)
+            holder['M'] = matrix.assemble_coo(A[rows, cols], rows, n, cols, n)
+        M = holder['M']
         try:
             x = M.solve(*args, **kwargs)
         except matrix.MatrixError as e:
